@@ -2,16 +2,19 @@ package main
 
 import (
 	"bytes"
+	"context"
 	"fmt"
 	"go/ast"
 	"go/parser"
 	"go/token"
+	"net/http"
 	"os"
 	"os/exec"
 	"path/filepath"
 	"strconv"
 	"strings"
 
+	connect "github.com/bufbuild/connect-go"
 	"google.golang.org/protobuf/proto"
 	"google.golang.org/protobuf/reflect/protodesc"
 	"google.golang.org/protobuf/types/descriptorpb"
@@ -332,6 +335,19 @@ func genCheckFile(c *Ctx, f genFile, outDir string, idx int) {
 			if e.url != canonical || e.mux != canonical || e.proc != canonical {
 				c.Fail("gen-path", op, fmt.Sprintf("url=%s mux=%s proc=%s", e.url, e.mux, e.proc), "client URL, mux pattern and handler procedure must all be "+canonical)
 			}
+			// the generated client is documented to accept a base URL with a path prefix
+			// ("https://acme.com/grpc"): the procedure it reports to interceptors is still the
+			// canonical one the generated handler is built with
+			for _, base := range []string{"https://acme.com", "https://acme.com/grpc", "http://h:81/api/v1"} {
+				icpt := &specIcpt{}
+				cl := connect.NewClient[emptypb.Empty, emptypb.Empty](&staticClient{status: 200, header: http.Header{"Content-Type": {"application/proto"}}}, base+e.url, connect.WithInterceptors(icpt))
+				_, _ = cl.CallUnary(context.Background(), connect.NewRequest(&emptypb.Empty{}))
+				c.Count("gen-client-procedure")
+				if icpt.count != 1 || icpt.spec.Procedure != e.proc {
+					c.Fail("gen-client-procedure", op, fmt.Sprintf("base URL %s: client reports %q, handler is built with %q", base, icpt.spec.Procedure, e.proc), "client and handler must agree on the canonical procedure")
+					break
+				}
+			}
 			if kind != wantKind || hkind != wantKind {
 				c.Fail("gen-constructor", op, kind+"/"+hkind, "the constructor must match the streaming kind "+wantKind)
 			}
@@ -365,6 +381,13 @@ func streamGen(c *Ctx) {
 	// constructors may depend on there being a method)
 	files = append(files, genFile{pkg: "z.v1", goPackage: "example.com/gen/z/v1;zv1", services: []genService{{name: "Greeter", methods: []genMethod{{name: "Hello"}}}, {name: "Admin"}}})
 	files = append(files, genFile{pkg: "z.v2", goPackage: "example.com/gen/z/v2;zv2", services: []genService{{name: "Empty"}}})
+	// long names: package, service and method names have no length limit; the synthesized doc
+	// comments contain them as single words
+	longPkg := "acme.platform.infrastructure.observability.telemetry.ingestion.pipeline.v1alpha1"
+	files = append(files, genFile{pkg: longPkg, goPackage: "example.com/gen/long/v1;longv1", comments: true, services: []genService{
+		{name: "TelemetryIngestionPipelineService", methods: []genMethod{{name: "Push"}, {name: "PushManyTelemetryRecordsWithAcknowledgementAndBackpressureSignalling", cs: true, ss: true}}},
+		{name: "S", methods: []genMethod{{name: "M", ss: true}}}}})
+	files = append(files, genFile{pkg: strings.Repeat("p123456789.", 12) + "v1", goPackage: "example.com/gen/long/v2;longv2", services: []genService{{name: strings.Repeat("Svc", 40), methods: []genMethod{{name: strings.Repeat("Do", 60), cs: true}}}}})
 	n := 20
 	if c.Thorough() {
 		n = 200
